@@ -907,14 +907,22 @@ func (I *skipInterp) onCall(st *walkState, fr *frame, c *ssa.Call) ([]walkState,
 	}
 	switch I.style {
 	case stylePtr:
-		if cal == nil || !inRepo(cal) || cal.Blocks == nil || len(args) == 0 || !isUnsafePointer(args[0].Type()) {
+		// the cursor is the callee's pointer argument (the first one; a receiver carrying the end address may precede it)
+		pi := -1
+		for i, a := range args {
+			if isUnsafePointer(a.Type()) {
+				pi = i
+				break
+			}
+		}
+		if cal == nil || !inRepo(cal) || cal.Blocks == nil || pi < 0 || pi > 1 {
 			return nil, false
 		}
 		res := cal.Signature.Results()
 		if res.Len() != 2 || !isErrorType(res.At(1).Type()) {
 			return nil, false // e.g. the raw 32-bit load helper
 		}
-		off, ok := I.ptrOff(args[0], fr, st.env)
+		off, ok := I.ptrOff(args[pi], fr, st.env)
 		if !ok {
 			I.bad = "cursor argument of " + cal.Name() + " is not an offset from the cursor"
 			return nil, false
